@@ -82,7 +82,8 @@ def prov_pipe(ctx):
     eccn = ecc[0][1].split("#")[0] if ecc else None
     obs.append(Ob(r, "encode:ecc", ok, "error codewords are computed from exactly the returned data codewords and size", site=site))
     nd = [s for s in sts if s[0] == "let" and s[3][0] == "call" and s[3][1].endswith("Vec::len") and is_var(s[3][2][0], cwn)]
-    ext = [(i, x) for i, s in enumerate(sts) for e in T.stmt_exprs(s) for x in T.sx_calls(e, "extend_from_slice")]
+    ext = [(i, x) for i, s in enumerate(sts) for e in T.stmt_exprs(s) for x in T.sx_walk(e)
+           if isinstance(x, tuple) and x and x[0] == "call" and x[1].split("::")[-1] in ("extend_from_slice", "extend", "append") and len(x[2]) == 2]
     ok = len(nd) == 1 and len(ext) == 1 and is_var(ext[0][1][2][0], cwn) and is_var(_strip_deref(ext[0][1][2][1]), eccn) and sts.index(nd[0]) < ext[0][0]
     obs.append(Ob(r, "encode:append", ok, "the error codewords are appended after the data codewords; num_data_codewords is the length before appending", site=site))
     res = sts[-1]
